@@ -119,6 +119,8 @@ type Exec struct {
 
 	// user data (harness ledger)
 	Data any
+	// per-execution state of shims that model an environment (virtual network)
+	Ext map[string]any
 }
 
 // The baton: every channel operation that passes control between goroutines goes through
